@@ -15,6 +15,7 @@ Record obs := { o_rets : list (N * N);                 (* handler, return code *
                 o_signed : list bytes;                 (* digests passed to SignHash of the node key *)
                 o_sends : list (bytes * bytes * bool); (* destination, calldata, result ok *)
                 o_writes : list write_obs;             (* commitments written to bidders' streams *)
+                o_asked : list bytes;                  (* addresses the allowance store was asked about *)
                 o_pending : N }.                       (* entries left in bidsInProcess *)
 (* timed cases (outer context without deadline): evs_after was issued timed_at ms after the handler
    started; the model orders it against the handler's own deadline, the literal of handleBid *)
@@ -75,10 +76,17 @@ Fixpoint m_writes_from (l : list heffect) (oks : N) : list write_obs :=
   | HWrite h c :: r => {| wo_h := h; wo_c := c; wo_sends_ok_before := oks |} :: m_writes_from r oks
   | _ :: r => m_writes_from r oks
   end.
+(* the allowance store is consulted for the address recovered from the bid's signature, once per
+   handler that passed the role check, the read and VerifyBid *)
+Definition m_asked (c : case) : list bytes :=
+  flat_map (fun a => let role := fst (snd a) in let o := snd (snd a) in
+                     if (role =? role_bidder)%Z then
+                       match o_read o, o_verify o with Some _, VOk ad => [ad] | _, _ => [] end
+                     else []) (arrivals (all_evs c)).
 Definition predict (c : case) : obs :=
   let s := model_state c in
   {| o_rets := m_rets c s; o_signed := m_signed s; o_sends := m_sends s;
-     o_writes := m_writes_from (chron s) 0; o_pending := N.of_nat (length (pending (svc s))) |}.
+     o_writes := m_writes_from (chron s) 0; o_asked := m_asked c; o_pending := N.of_nat (length (pending (svc s))) |}.
 
 Definition obs_eqb (a b : obs) : bool :=
   list_eqb (fun x y => (fst x =? fst y) && (snd x =? snd y)) (o_rets a) (o_rets b) &&
@@ -86,7 +94,8 @@ Definition obs_eqb (a b : obs) : bool :=
   list_eqb (fun x y => bytes_eqb (fst (fst x)) (fst (fst y)) && bytes_eqb (snd (fst x)) (snd (fst y)) &&
                        Bool.eqb (snd x) (snd y)) (o_sends a) (o_sends b) &&
   list_eqb (fun x y => (wo_h x =? wo_h y) && preconf_eqb (wo_c x) (wo_c y) &&
-                       (wo_sends_ok_before x =? wo_sends_ok_before y)) (o_writes a) (o_writes b).
+                       (wo_sends_ok_before x =? wo_sends_ok_before y)) (o_writes a) (o_writes b) &&
+  list_eqb bytes_eqb (o_asked a) (o_asked b).
 (* o_pending is not observable from outside the providerapi package: compared by C12's driver *)
 
 Definition obs_eqb_e2e (a b : obs) : bool :=
@@ -149,6 +158,10 @@ Definition violation (c : case) : option string :=
   (* return codes 97 / 98: the handler was still running 2.5 s after its own deadline / did not return
      within the driver's wall-clock limit (longer than that deadline) *)
   if existsb (fun r => (snd r =? 97) || (snd r =? 98)) (o_rets o) then Some "effect-without-gate:deadline-hang"%string else
+  (* effects although the allowance was obtained for another address than the bid's signer *)
+  if (mode c =? 0) && negb (list_eqb bytes_eqb (o_asked o) (m_asked c)) &&
+     negb (match o_signed o, o_sends o, o_writes o with [], [], [] => true | _, _, _ => false end)
+  then Some "effect-without-gate:allowance"%string else
   (* a commitment written on a stream whose handler fails a gate, or embedding another bid *)
   match flat_map (fun w => match nget (wo_h w) (arrivals (all_evs c)) with
                            | Some (role, ao) =>
